@@ -395,6 +395,7 @@ class Nodes(_Nodes):
         'false': '0', 'true': '1',
         '~': '!',
         r'\/': '|', '/\\': '&',
+        '^': '^',
         '=>': '| !',
         '=>': '| !',
         '<=>': '! ^',
